@@ -16,6 +16,7 @@ pub mod fieldvalue;
 pub mod filters;
 pub mod frontend;
 pub mod hints;
+pub mod introspect;
 pub mod ir;
 #[cfg(feature = "hooks")]
 pub mod lattice;
